@@ -156,8 +156,10 @@ def wrap_user(rng, g, e, depth=2):
     """put user node types / legacy classes around and inside expressions"""
     k = rng.random()
     sub = lambda: g.gen(rng.choice(["num", "int", "bool"]), rng.randint(0, 2))  # noqa: E731
-    if k < 0.25:
+    if k < 0.2:
         return K.Norm(e, rng.randint(-2, 3))
+    if k < 0.25:
+        return K.Annotated(e, rng.choice(["n1", "n2", "s"]), rng.choice(["s", "t"]))
     if k < 0.45:
         names = rng.sample(["k", "j", "a", "zz"], rng.randint(0, 3))
         return K.Labelled(rng.choice(["lab", "u"]), (e, sub()), {n: sub() for n in names})
@@ -260,6 +262,7 @@ def gen_histories(rng, tier):
     # directed: every user / legacy class, hashed before pickling, every protocol, looked up
     x = p.Variable("x")
     directed = [K.Norm(x + 1, 2), K.Labelled("lab", (x, 2), {"k": x, "j": 3}), K.Unit(),
+                K.Annotated(x + 1, "note", "scp"), K.Annotated(K.Annotated(x, "s", "n"), "n", "s"),
                 K.LegacyPair(x, 3), K.LegacyVar("v", 7), p.Sum((K.LegacyVar("v", 1), K.Unit())),
                 p.CallWithKwargs(p.Variable("f"), (x,), {"k": 1, "j": x}), p.NaN(),
                 p.CommonSubexpression(x * 2, "cs"), p.Slice((x, None, 2)),
@@ -435,7 +438,7 @@ class HistStream(Stream):
                 pr[str(op[2])] = pr.get(str(op[2]), 0) + 1
         cl = acc.setdefault("classes", {})
         for s in pl["pool"]:
-            for name in ("Norm", "Labelled", "Unit", "LegacyPair", "LegacyVar", "CallWithKwargs"):
+            for name in ("Norm", "Labelled", "Annotated", "Unit", "LegacyPair", "LegacyVar", "CallWithKwargs"):
                 if f'"{name}"' in s:
                     cl[name] = cl.get(name, 0) + 1
         if BATCH.result is not None and "processes" not in acc:
